@@ -26,6 +26,7 @@ type Engine struct {
 	models      map[string]modelFn
 	interp      map[string]bool
 	allowGlobal map[string]bool
+	noInit      map[string]bool
 	growMu      sync.Mutex
 
 	mu      sync.Mutex
@@ -157,9 +158,11 @@ func main() {
 	eng := &Engine{prog: prog, target: spkgs[0], models: map[string]modelFn{}, interp: map[string]bool{}, allowGlobal: map[string]bool{},
 		solverKind: *solver, timeoutMs: *timeout, known: map[string]bool{}, seed: *seed, sampleN: *sampleN, maxViol: *maxViol, solverLog: *solverLog, maxPaths: *maxPaths}
 	eng.cond = sync.NewCond(&eng.mu)
-	for _, p := range []string{"github.com/yudai/golcs", "slices", "golang.org/x/exp/slices", "cmp", "math/bits", "unicode/utf8"} {
+	for _, p := range []string{"github.com/yudai/golcs", "slices", "golang.org/x/exp/slices", "cmp", "math/bits", "unicode/utf8", "github.com/go-openapi/jsonpointer"} {
 		eng.interp[p] = true
 	}
+	// interpreted, but the package initialiser is not run (only constant-using functions are reached)
+	eng.noInit = map[string]bool{"github.com/go-openapi/jsonpointer": true}
 	for _, g := range []string{"encoding/binary.LittleEndian", "encoding/binary.BigEndian"} {
 		eng.allowGlobal[g] = true
 	}
